@@ -10,6 +10,7 @@ From Soy Require Import Spec.Text.
 From Soy Require Import Proofs.RawTextProofs.
 From Soy Require Import Model.Ast Model.Token Model.Lexer Model.Parser Generated.Tables
   Proofs.LexerProofs Proofs.LexBodyText Proofs.LexBodyTop Proofs.ParseBodyText Proofs.BodyTextMain.
+From Soy Require Import Spec.TextBody Proofs.LexTokens Proofs.LexPrintTop Proofs.LexBodyMain Proofs.BodyCmdMain.
 Open Scope N_scope.
 
 (* The loop of parse/rawtext.go returns exactly the Spec's normalisation, under
@@ -103,9 +104,9 @@ Proof. vm_compute. reflexivity. Qed.
    ([lexq], [unq], [inlen] -- the nested scanner, strconv.Unquote and the length used for error positions --
    are arbitrary: this path never consults them.)
    PARTIAL with respect to the design's body_text_spec: T is the whole input (so "//" at the very start is a
-   comment); bodies that also contain the special-character commands {sp} {nil} {\n} {\r} {\t} {lb} {rb} and
-   {literal} blocks, and text that follows a tag, are not covered by a theorem (the scanner's tag states are
-   not part of the string-level lemmas); they stay with the rendering check of the harness. *)
+   comment) and contains no tag; bodies with the special-character commands are C15_body_special_chars_spec
+   below (comment-free stretches); {literal} blocks and comments next to tags are not covered by a theorem and
+   stay with the rendering check of the harness. *)
 Theorem C15_body_text_spec_partial : forall inlen lexq unq T out,
   plain T -> body_text true T = Some out ->
   exists items pos nodes st,
@@ -142,6 +143,47 @@ Theorem C15_slashes_after_nonspace : forall pw cur c v, ws c = false -> c <> 47 
 Proof. exact slashes_after_nonspace. Qed.
 Print Assumptions C15_slashes_after_nonspace.
 
+(* ---- bodies with special-character commands ---- *)
+(* For EVERY body  T0 {c1} T1 {c2} T2 ... {cn} Tn  (Spec/TextBody.v) in which every ci is one of the seven
+   special-character commands {sp} {nil} {\t} {\r} {\n} {lb} {rb} and every stretch Ti consists of plain bytes (no
+   NUL, no brace) and contains no comment in the Spec's sense (T0 begins the input, where a leading "//" would be
+   one; after a tag it is not): the scanner model run on the body as a file (lexText up to each "{", lexLeftDelim,
+   lexBeginTag, lexInsideTag / lexIdent on the command name, "}" -> lexRightDelim) returns an item list, and the
+   parser model (SoyFile: itemList, textOrTag, beginTag's special-character case, rawtext) run on it under the
+   entry point's own budget returns a list node whose children are all raw-text nodes and whose texts,
+   concatenated, are  normalize T0 ++ char(c1) ++ normalize T1 ++ ... : each stretch normalised as a whole with
+   no flagged end, each command giving exactly its character ({nil}: nothing).  Stretches may be empty.
+   NOT covered (the remaining gap to the design's body_text_spec): {literal} blocks, and comments inside a body
+   that also contains tags (comments are covered for bodies without tags: C15_body_text_spec_partial). *)
+Theorem C15_body_special_chars_spec : forall inlen lexq unq T0 rest,
+  stretch_ok true T0 -> Forall seg_ok rest ->
+  exists items pos nodes st,
+    lex_items is_letter_tbl is_digit_tbl (lex_budget (body_src T0 rest)) false (body_src T0 rest) = Ok items /\
+    po_result (soy_file inlen lexq unq items) = POk (NList pos nodes) st /\
+    Forall is_raw nodes /\ concat (map raw_text_of nodes) = body_out T0 rest.
+Proof.
+  intros inlen lexq unq. destruct tables_ascii as [Hl Hd]. destruct tables_eof as [El Ed].
+  exact (body_cmds_impl_spec is_letter_tbl is_digit_tbl Hl Hd El Ed inlen lexq unq).
+Qed.
+Print Assumptions C15_body_special_chars_spec.
+
+(* special_chars_exact: a special-character command alone gives exactly its character *)
+Theorem C15_special_chars_exact : forall inlen lexq unq name out, In (name, out) special_cmds ->
+  exists items pos nodes st,
+    lex_items is_letter_tbl is_digit_tbl (lex_budget ([123] ++ name ++ [125])) false ([123] ++ name ++ [125]) = Ok items /\
+    po_result (soy_file inlen lexq unq items) = POk (NList pos nodes) st /\
+    Forall is_raw nodes /\ concat (map raw_text_of nodes) = out.
+Proof.
+  intros inlen lexq unq name out Hin.
+  destruct (C15_body_special_chars_spec inlen lexq unq [] [((name, out), [])]) as (items & pos & nodes & st & A & B & C & D).
+  - split; [constructor|reflexivity].
+  - constructor; [|constructor]. split; [exact Hin|]. split; [constructor|reflexivity].
+  - assert (E : body_src [] [((name, out), [])] = [123] ++ name ++ [125]) by reflexivity. rewrite E in A.
+    exists items, pos, nodes, st. split; [exact A|]. split; [exact B|]. split; [exact C|]. rewrite D. unfold body_out. cbn [rest_out].
+    change (normalize false false []) with (@nil N). cbn [app]. apply app_nil_r.
+Qed.
+Print Assumptions C15_special_chars_exact.
+
 (* non-vacuity: the hypotheses hold of "see http://x y", and scanner + parser models, run by computation on a
    text with both kinds of comment, give the Spec's text *)
 Example C15_ex_http :
@@ -176,3 +218,31 @@ Example C15_ex_body_text :
   /\ body_text false (b "a /**/ b") = Some (b "ab")
   /\ body_text false (b "a /* unclosed") = None.
 Proof. repeat split; vm_compute; reflexivity. Qed.
+
+(* a body with all seven commands, by computation: scanner and parser models give the Spec's text *)
+Definition c15_ex_body : bstr * list seg :=
+  (b "a  ", [((b "sp", [32]), b "b" ++ [10] ++ b " c"); ((b "\n", [10]), []); ((b "lb", [123]), b "x/y http://z");
+             ((b "rb", [125]), []); ((b "nil", []), b " d"); ((b "\t", [9]), []); ((b "\r", [13]), b "e ")]).
+Example C15_ex_body_cmds :
+  stretch_ok true (fst c15_ex_body) /\ Forall seg_ok (snd c15_ex_body) /\
+  body_src (fst c15_ex_body) (snd c15_ex_body) = b "a  {sp}b" ++ [10] ++ b " c{\n}{lb}x/y http://z{rb}{nil} d{\t}{\r}e " /\
+  body_out (fst c15_ex_body) (snd c15_ex_body) = b "a   b c" ++ [10] ++ b "{x/y http://z} d" ++ [9; 13] ++ b "e " /\
+  match lex_items is_letter_tbl is_digit_tbl (lex_budget (body_src (fst c15_ex_body) (snd c15_ex_body))) false (body_src (fst c15_ex_body) (snd c15_ex_body)) with
+  | Ok items =>
+      match po_result (soy_file 0 (fun _ => []) (fun _ => None) items) with
+      | POk (NList _ nodes) _ => concat (map raw_text_of nodes) = body_out (fst c15_ex_body) (snd c15_ex_body)
+      | _ => False
+      end
+  | _ => False
+  end.
+Proof.
+  assert (Hplain : forall s : bstr, forallb (fun c => negb (c =? 0) && negb (c =? 123) && negb (c =? 125)) s = true ->
+                   Forall (fun c => c <> 0 /\ c <> 123 /\ c <> 125) s).
+  { intros s H. apply Forall_forall. intros c Hc. rewrite forallb_forall in H. specialize (H c Hc). lia. }
+  split; [split; [apply Hplain; vm_compute; reflexivity|vm_compute; reflexivity]|].
+  split.
+  { apply Forall_forall. intros sg Hin. unfold c15_ex_body in Hin. cbn [snd In] in Hin.
+    repeat (destruct Hin as [<-|Hin]; [split; [vm_compute; auto 12|split; [apply Hplain; vm_compute; reflexivity|vm_compute; reflexivity]]|]).
+    contradiction. }
+  split; [vm_compute; reflexivity|]. split; [vm_compute; reflexivity|]. vm_compute. reflexivity.
+Qed.
